@@ -535,10 +535,21 @@ def mapBinsResult (drop : Bool) (edges : Edges α) (context : Slots) (newBins : 
           | .ok c => .ok (.hist newHist (some c))
         else .ok (.hist newHist (some context))
 
-/-- `MapBins.run` for one value of the flow (lines 215-270).  `seqRun cell` is
-`copy.deepcopy(self._seq).run([cell])` iterated to its end; `sel` is `select_bins` applied to the example
-bin; `drop` is `drop_bins_context`. -/
-def mapBinsOne (seqRun : Value D → Trace (Value D) ε) (sel : Value D → Bool) (drop : Bool) :
+/-- `copy.deepcopy(self._seq).run([cell])` for one cell: `Sequence.run` "is evaluated immediately, and
+raises in case of errors" (sequence.py:74-77) — an accumulator inside the sequence is filled when the
+generator is *created* — so the call either raises or returns a generator.  The copy is fresh for every
+cell: what it does is a function of the cell alone (`seqStart`). -/
+def startCell (seqStart : Value D → Except ε (Trace (Value D) ε)) (cell : Value D) :
+    Except (Exc ε) (Trace (Value D) (Exc ε)) :=
+  match seqStart cell with
+  | .error e => .error (.inner e)
+  | .ok t => .ok t.liftInner
+
+/-- `MapBins.run` for one value of the flow (lines 215-270).  `seqStart cell` is
+`copy.deepcopy(self._seq).run([cell])` (see `startCell`); `sel` is `select_bins` applied to the example
+bin; `drop` is `drop_bins_context`.  `_MdSeqMap.__init__` creates the generators of all cells, in cell
+order, before the first round. -/
+def mapBinsOne (seqStart : Value D → Except ε (Trace (Value D) ε)) (sel : Value D → Bool) (drop : Bool) :
     FVal α D → Trace (FVal α D) (Exc ε)
   | .plain v => ⟨[.plain v], none⟩
   | .hist h ctx =>
@@ -547,15 +558,15 @@ def mapBinsOne (seqRun : Value D → Trace (Value D) ε) (sel : Value D → Bool
     | .ok b00 =>
       if !sel b00 then ⟨[.hist h ctx], none⟩
       else
-        match NArr.mdMap (fun cell => (seqRun cell).liftInner) h.bins with
-        | .error e => ⟨[], some (Exc.ofErr e)⟩
+        match mdMapE (startCell seqStart) .lenaTypeError .unmodelled h.bins with
+        | .error e => ⟨[], some e⟩
         | .ok traces =>
           mdSeqMapRun (mapBinsResult names drop h.edges (ctx.getD (emptyD names.length))) traces
 
 /-- `MapBins.run(flow)` -/
-def mapBinsRun (seqRun : Value D → Trace (Value D) ε) (sel : Value D → Bool) (drop : Bool)
+def mapBinsRun (seqStart : Value D → Except ε (Trace (Value D) ε)) (sel : Value D → Bool) (drop : Bool)
     (flow : List (FVal α D)) : Trace (FVal α D) (Exc ε) :=
-  traceFlatMap (mapBinsOne names seqRun sel drop) flow
+  traceFlatMap (mapBinsOne names seqStart sel drop) flow
 
 end bins
 end order
